@@ -258,7 +258,10 @@ def _r1_r2(ctx, fl, pfn, pname):
                 same_len = n_[0] == "binop" and n_[1] == "Sub" and is_pos(n_[2], "end") and is_pos(n_[3], "start")
                 if n_[0] == "call" and n_[1] == ("global", "len") and n_[2] and simp(n_[2][0])[0] == "meth" and simp(n_[2][0])[2] == "group":
                     same_len = True
-                fill = (len(s_[1]) == 1 and same_len, s_[1], show(n_))
+                # understood: the span's own length (ok), a constant repeat count / a filler of several characters (wrong); a repeat
+                # count computed in another way is not read
+                if same_len or n_[0] == "const" or len(s_[1]) != 1:
+                    fill = (len(s_[1]) == 1 and same_len, s_[1], show(n_))
         if pre and suf and fill is not None:
             ok = fill[0]
             why = f"filler {fill[1]!r} * ({fill[2]})"
